@@ -27,7 +27,10 @@ REPO = os.environ.get("VERIF_REPO", "/repo")
 # VERIF_REPO=<scratch copy> (self-test with mutants only): build against that
 # copy through a -modfile, with separate build output and evidence.
 MUT = REPO != "/repo"
-BUILD = os.path.join(VERIF, ".build-mut" if MUT else ".build")
+BUILD = os.path.join(VERIF, ".build")
+if MUT:
+    # VERIF_MUT_BUILD lets several mutant runs go on side by side
+    BUILD = os.environ.get("VERIF_MUT_BUILD") or os.path.join(VERIF, ".build-mut")
 
 ENV = dict(os.environ)
 ENV.update({
